@@ -135,6 +135,16 @@ def run(corrupt=None):
     ck.add_tlc("DEV caches never cleared (must violate CacheFresh)", neg, must_fail=True)
     if "CacheFresh" not in neg.violated:
         raise tlc.TLCError("deviation not refuted: %s" % neg.summary())
+    # the tree moves the driver composes are defined on every forest (incl. the all-outlier tree)
+    from . import c04
+    jobs = [dict(job="c19_moves_%d" % i, module="Moves", workers=2, timeout=1500,
+                 cfg=tlc.cfg_text(constants=c04.mv_consts(3, True, "sub", 1, whole=w), invariants=["DefinedInv"])) for i, w in enumerate((True, False))]
+    rd, rdn = tlc.run_many(jobs)
+    tlc.require_ok(rd, "Moves defined")
+    ck.add_tlc("Moves.tla MovesDefined: every move has a candidate on every forest over 3 points with outliers", rd)
+    ck.add_tlc("DEV subtree move without the all-outlier fallback (must violate DefinedInv)", rdn, must_fail=True)
+    if "DefinedInv" not in rdn.violated:
+        raise tlc.TLCError("deviation not refuted: %s" % rdn.summary())
     options = list(all_options())
     if thorough:
         datasets = [(1, 1), (2, 1), (3, 1), (2, 2), (3, 2), (4, 1)]
